@@ -23,24 +23,31 @@ METHODS = {"spline": [2, 3, 4, 5], "lagrange": [2, 3, 4, 6], "krogh": [2, 3, 6],
 class Interp:
     """Uninterpreted smooth interpolant built from (kind, nodes, values, keyword arguments)."""
 
-    def __init__(self, kind, x, y, kwargs, nu=0):
+    def __init__(self, kind, x, y, kwargs, nu=0, extrapolates=True):
         self.kind, self.x, self.y, self.kwargs, self.nu = kind, numpy.asarray(x, dtype=object), numpy.asarray(y, dtype=object), kwargs, nu
+        self.extrapolates = extrapolates      # contract of the installed library class (probed), unless the caller asks for extrapolation
 
     def ident(self):
         return (self.kind, tuple(Sym.of(a).key() for a in self.x), tuple(Sym.of(a).key() for a in self.y), tuple(sorted(self.kwargs.items())))
 
-    def _eval(self, xs, nu):
+    def _eval(self, xs, nu, extrapolate=None):
         ctx = S.current()
+        extrapolates = self.extrapolates if extrapolate is None else bool(extrapolate)
         xs = numpy.asarray(xs, dtype=object)
         out = numpy.empty(xs.shape, dtype=object)
+        nodes = [S._try_numeric(Sym.of(a)) for a in self.x.ravel()]
         for idx in numpy.ndindex(*xs.shape):
+            xv = S._try_numeric(Sym.of(xs[idx]))
+            if not extrapolates and xv is not None and all(n is not None for n in nodes) and not (min(nodes) <= xv <= max(nodes)):
+                out[idx] = ctx.fresh_undef()        # the library returns NaN outside the node range
+                continue
             out[idx] = ctx.uf("F", [self.kind, self.x, self.y, repr(sorted(self.kwargs.items())), self.nu + nu, Sym.of(xs[idx])])
         return out
 
-    def __call__(self, xs, nu=0, **kw):
+    def __call__(self, xs, nu=0, extrapolate=None, **kw):
         if kw:
             raise SymError("interpolant stub: unexpected call arguments %s" % kw)
-        return self._eval(xs, nu)
+        return self._eval(xs, nu, extrapolate)
 
     def derivative(self, xs, der=1):
         return self._eval(xs, der)
@@ -53,6 +60,13 @@ def make_scipy_stub(real_interpolate, created):
     def mk(kind):
         real = getattr(real_interpolate, kind)
         sig = inspect.signature(real.__init__ if inspect.isclass(real) else real)
+        # contract probe: does the installed class return NaN outside its node range by default?
+        try:
+            with numpy.errstate(all="ignore"):
+                probe = real(numpy.arange(6.0), numpy.arange(6.0) ** 2)
+                nan_outside = bool(numpy.isnan(numpy.asarray(probe(7.5), dtype=float)).any())
+        except Exception:
+            nan_outside = False
 
         def ctor(*a, **kw):
             if inspect.isclass(real):
@@ -67,7 +81,7 @@ def make_scipy_stub(real_interpolate, created):
                 x = args.pop("xi")
                 y = args.pop("yi")
             extra = {k: repr(v) for k, v in args.items() if v is not None and k not in ("axis", "extrapolate", "check_finite", "ext", "bbox", "s", "w")}
-            obj = Interp(kind, x, y, extra)
+            obj = Interp(kind, x, y, extra, extrapolates=(bool(args["extrapolate"]) if args.get("extrapolate") is not None else not nan_outside))
             created.append(obj)
             return obj
         return ctor
@@ -155,6 +169,52 @@ def triple_obligations(chk, mg, tier, rng):
             if fails:
                 replay_method(chk, mg, method, order, rng, fails[0])
     chk.sample(dict(method="spline", order=3, nodes="flip(ln V_1..7)", triple="(exp F(ln v), -F'(ln v), -F''(ln v))"))
+
+
+def extrapolation_obligations(chk, mg, tier, rng):
+    """Defined on the whole extrapolated grid: concrete sampled volumes, a concrete volume grid reaching beyond both ends by the usual
+    expansion ratio, symbolic frequencies.  The interpolant stubs carry the extrapolation contract of the installed library classes
+    (probed): a class that returns NaN outside its node range poisons those grid points unless the code asks it to extrapolate."""
+    import scipy.interpolate as real_si
+    vols = numpy.array([420.0, 400.0, 380.0, 360.0, 340.0, 320.0, 300.0, 280.0])
+    v_array = numpy.array([420.0 * 1.2, 430.0, 419.0, 350.0, 281.0, 275.0, 280.0 / 1.2])
+    for method, orders in METHODS.items():
+        if method in ("lsq_poly", "hermite"):
+            continue
+        for order in (orders[:2] if tier == "quick" else orders):
+            name = "%s[order=%d]: defined on the extrapolated volume grid" % (method, order)
+            ctx = new_context()
+            freqs = symvars("w", (len(vols),), positive=True)
+            created = []
+            stub = make_scipy_stub(real_si, created)
+            proxy = NumpyProxy()
+            proxy.extra["polyder"] = lambda p_, m=1: Interp(p_.kind, p_.x, p_.y, p_.kwargs, nu=p_.nu + m, extrapolates=p_.extrapolates) if isinstance(p_, Interp) else numpy.polyder(p_, m)
+            sstub = PC.Obj()
+            sstub.interpolate = stub
+
+            def fn():
+                with patched((mg, {"numpy": proxy, "scipy": sstub})):
+                    if method == "spline":
+                        return mg.interpolate_mode_spline(vols, freqs, v_array, order=order)
+                    if method == "lagrange":
+                        return mg.interpolate_mode_lagrange(vols, freqs, v_array, order=order)
+                    if method == "krogh":
+                        return mg.interpolate_mode_krogh(vols, freqs, v_array, order=order)
+                    return mg.interpolate_mode_ppoly(vols, freqs, v_array, method=method, order=order)
+            try:
+                out = X.run_single_path(fn, name="C11:" + name)
+            except SymError as e:
+                chk.inconclusive(name, str(e))
+                continue
+            except Exception as e:
+                chk.obligation(name, "sat", kind="definedness", detail="raises %s: %s" % (type(e).__name__, e))
+                replay_method(chk, mg, method, order, rng, "raises %s: %s" % (type(e).__name__, e))
+                continue
+            undefined = [(i, j) for i in range(3) for j, x in enumerate(numpy.asarray(out[i], dtype=object)) if Sym.of(x).poison]
+            chk.obligation(name, "unsat" if not undefined else "sat", kind="definedness",
+                           detail=dict(undefined_grid_points=sorted(set(float(v_array[j]) for _, j in undefined))) if undefined else None)
+            if undefined:
+                replay_method(chk, mg, method, order, rng, "undefined (NaN) values on the extrapolated grid")
 
 
 def lsq_obligations(chk, mg, tier, rng):
@@ -272,6 +332,12 @@ def replay_method(chk, mg, method, order, rng, what, nvol=8):
                       dict(method=method, order=order))
         return
     w, gm, vd = (numpy.asarray(x, dtype=float) for x in out)
+    if not (numpy.all(numpy.isfinite(w)) and numpy.all(numpy.isfinite(gm)) and numpy.all(numpy.isfinite(vd))):
+        bad_v = v[~(numpy.isfinite(w) & numpy.isfinite(gm) & numpy.isfinite(vd))]
+        chk.violation("%s:not-finite" % method, "method %r (order %d) returns NaN at the grid volumes %s (sampled volumes %g..%g, grid extended by the usual "
+                      "ratio): the interpolant is not defined on the whole extrapolated volume grid" % (method, order, bad_v.tolist()[:5], vols.min(), vols.max()),
+                      dict(method=method, order=order))
+        return
     inner = (v <= vols.max()) & (v >= vols.min())
     tol = 1e-6
     if numpy.abs(w[inner] / (A * v[inner] ** (-g)) - 1).max() > tol or numpy.abs(gm[inner] - g).max() > 1e-5 or numpy.abs(vd[inner]).max() > 1e-3:
@@ -445,6 +511,7 @@ def main():
     Z.reset_log()
     rng = random.Random(seed() + 11)
     triple_obligations(chk, mg, tier, rng)
+    extrapolation_obligations(chk, mg, tier, rng)
     lsq_obligations(chk, mg, tier, rng)
     modes_loop(chk, mg, tier, rng)
     plot_obligation(chk, rng)
